@@ -100,3 +100,13 @@ package rest
 //@ func (s *Server) AddRoute
 //@   property C04 C18 C09
 //@   call AddRoutes#0: assert sameSlice(arg_opts, opts) && arg_recv == s && len(arg_rs) == 1 && arg_rs[0].Path == r.Path && arg_rs[0].Method == r.Method && arg_rs[0].Handler == r.Handler
+
+// C09 registration errors surface: the first route group the router refuses stops the binding and its error is what start
+// returns - a refusal in one group is never overwritten by a later group that binds cleanly
+//@ func (ng *engine) bindRoutes
+//@   property C09
+//@   ghost at entry: failed = false
+//@   ghost at after bindFeaturedRoutes#0: failed = (ret != nil)
+//@   call bindFeaturedRoutes#0: assert arg_router == router && arg_recv == ng
+//@   loop 0: invariant !failed
+//@   ensures_local implies(failed, result != nil) && implies(!failed, result == nil)
